@@ -57,6 +57,7 @@ type c06job struct {
 	bigModel bool // follow-up run on a root where repetition was seen: larger model budget
 	rep      int  // DFPN: threefold repetitions met by this run
 	work     uint64
+	crossPN  bool // also ask the PN solver (which has no immediate-threat shortcut): the two verdicts may not contradict
 	modelOK  bool // eligible for the model comparison (cost permitting)
 
 	// results
@@ -231,6 +232,15 @@ func (j *c06job) run() {
 		j.stats["oracle_only_runs"]++
 	}
 	j.judge(in, res, attacker, l1)
+	if j.crossPN && j.kind == "dfpn" && attacker == j.root.ToMove() && res.Result != prove.EvalUnknown {
+		pr := prove.New(prove.Config{MaxNodes: 200000})
+		r2, _ := pr.Prove(context.Background(), j.root)
+		j.stats["dfpn_pn_cross_checked"]++
+		if r2.Result != prove.EvalUnknown && r2.Result != res.Result {
+			// both solvers claim to be sound for the same attacker: one of the two verdicts is wrong
+			j.out = append(j.out, fmt.Sprintf("ORACLE-FAIL pn-dfpn-contradiction | %s | DFPN: %s, PN (200000 nodes, no depth limit): %s | the same verdict from both, or unknown", in, l1, verdictStr(r2.Result)))
+		}
+	}
 }
 
 // judge: the property, evaluated directly.
@@ -303,7 +313,7 @@ func (j *c06job) judge(in string, res prove.ProofResult, attacker tak.Color, l1 
 		}
 		// a DFPN proof found with w calls of mid is a win within w+1 plies (each call goes one ply down, the
 		// immediate-threat shortcut adds one)
-		if j.kind == "dfpn" && j.work <= 3 {
+		if j.kind == "dfpn" && j.work <= 4 && (j.work <= 3 || j.root.Size() == 3) {
 			b2 := 4000000
 			if w, c := forcedWin(j.root, attacker, int(j.work)+1, &b2); c {
 				j.stats["bounded_dfpn_proven_confirmed_exactly"]++
@@ -333,6 +343,15 @@ func (j *c06job) judge(in string, res prove.ProofResult, attacker tak.Color, l1 
 			b3 := 400000
 			if w, c := forcedWin(q, defender, depth-1, &b3); c && w {
 				fail("proven-move-loses", l1, fmt.Sprintf("after the returned move defender %s wins by force within %d plies", attStr(defender), depth-1))
+				return
+			}
+			// the proof that DFPN found runs through the returned move: w calls of mid = a win within w plies after it
+			if j.kind == "dfpn" && j.work <= 4 {
+				b4 := 4000000
+				if w, c := forcedWin(q, attacker, int(j.work), &b4); c && !w {
+					fail("proven-move-loses", l1, fmt.Sprintf("after the returned move no forced win for %s within %d plies (exhaustive), but the search made only %d calls", attStr(attacker), j.work, j.work))
+					return
+				}
 			}
 		}
 		j.stats["bounded_proven_checked"]++
@@ -717,6 +736,7 @@ func runC06(c *ctx) {
 				j.entries = 1 << 16 // full-size 3x3 games: the search needs its table to come back in time
 			}
 			j.modelOK = v == 0 && k%2 == 0
+			j.crossPN = true
 			j.gi = -1
 			jobs = append(jobs, j)
 		}
